@@ -40,13 +40,10 @@ Ltac tdiv_tac a b Ha Hb H0 H1 :=
   unfold op_tdiv, op_tmod, op_cdiv, op_crem, c_div, c_rem, c_divlike; cbn [fst snd];
   eval_uac; cbn [isigned andb]; drop_cwrap a; drop_cwrap b;
   (replace (b =? 0) with false by lia);
-  repeat match goal with
-         | |- context [?x =? ?y] => match y with
-                                    | 0 => fail 1
-                                    | _ => first [ replace (x =? y) with false by lia | destruct (x =? y) eqn:?E ]
-                                    end
-         end;
-  cbn [andb]; split; apply ret_not_ub; try discriminate; exfalso; lia.
+  try (let E := fresh "E" in let E1 := fresh "E" in let E2 := fresh "E" in
+       match goal with |- context [if ?c && ?d then _ else _] => destruct (c && d) eqn:E end;
+       [exfalso; apply andb_prop in E; destruct E as [E1 E2]; apply Z.eqb_eq in E1, E2; unfold imin in E1; cbn in E1; lia|]);
+  split; apply ret_not_ub; discriminate.
 
 Lemma tdiv_no_ub_partial t a b : ity_ok t -> in_ity t a -> in_ity t b -> b <> 0 -> (b <> -1 \/ a <> imin t) ->
   op_tdiv t a b <> OUB /\ op_tmod t a b <> OUB.
